@@ -425,6 +425,9 @@ func alphabet(p *pool, withMaps bool) []Op {
 			ops = append(ops, Op{K: "newmap", V: []int{a, 1}})
 		}
 		ops = append(ops, Op{K: "newmap", V: []int{1, 2, 3, 1}})
+		// a key stored with the value 0 is a key (Inc never produces it, the constructor accepts it)
+		ops = append(ops, Op{K: "newmap", V: []int{1, 0}})
+		ops = append(ops, Op{K: "newmap", V: []int{0, 0, 2, 5}})
 	}
 	idx := p.distinctMembers()
 	for _, i := range idx {
@@ -461,13 +464,24 @@ type scenario struct {
 }
 
 // the start state the library itself works from: one singleton set per parser index
+// sets larger than the sizes at which an implementation may switch strategy (8, 16, 32 elements)
+func span(n int) []int {
+	v := make([]int, n)
+	for i := range v {
+		v[i] = i
+	}
+	return v
+}
+
+var largeSets = []Op{{K: "newset", V: span(9)}, {K: "newset", V: span(17)}, {K: "newset", V: append(span(33), 40)}}
+
 var singletons = []Op{{K: "newset", V: []int{0}}, {K: "newset", V: []int{1}}, {K: "newset", V: []int{2}}}
 
 func scenarios(tier string) []scenario {
 	if tier == "thorough" {
-		return []scenario{{"sets", false, 5, nil}, {"sets+maps", true, 4, nil}, {"derived-from-singletons", false, 5, singletons}}
+		return []scenario{{"sets", false, 5, nil}, {"sets+maps", true, 4, nil}, {"derived-from-singletons", false, 5, singletons}, {"derived-from-large-sets", false, 3, largeSets}}
 	}
-	return []scenario{{"sets", false, 4, nil}, {"sets+maps", true, 3, nil}, {"derived-from-singletons", false, 4, singletons}}
+	return []scenario{{"sets", false, 4, nil}, {"sets+maps", true, 3, nil}, {"derived-from-singletons", false, 4, singletons}, {"derived-from-large-sets", false, 2, largeSets}}
 }
 
 func run(env *explore.Env) *explore.Result {
